@@ -312,9 +312,9 @@ static long purge_calls_since(long mark) {
   for (long k = mark; k < vf_os.ncalls && k < VF_MAX_CALLS; k++) { const vf_call_t* c = &vf_os.calls[k]; if (c->kind == VF_C_MADVISE || (c->kind == VF_C_MPROTECT && c->arg == PROT_NONE)) n++; }
   return n;
 }
-enum { U_PAGE = 0, U_SEGMENT = 1, U_ALL = 2, U_MULTI = 3, U_CHURN = 4, U_ARENAS = 5, U_ABANDONED = 6, NUNUSED = 7 };
+enum { U_PAGE = 0, U_SEGMENT = 1, U_ALL = 2, U_MULTI = 3, U_CHURN = 4, U_ARENAS = 5, U_ABANDONED = 6, U_RETIRED = 7, NUNUSED = 8 };
 enum { A_FREE_OTHER_PAGE = 0, A_ALLOC_PAGE = 1, A_HUGE_ALLOC_FREE = 2, A_COLLECT = 3, A_FASTPATH = 4, NACT = 5 };
-static const char* u_names[] = { "page-in-live-segment", "whole-segment", "everything", "several-pages-of-one-segment", "several-pages-one-of-them-reused-repeatedly", "four-huge-segments-possibly-in-four-arenas", "page-of-an-abandoned-segment-freed-by-another-thread" };
+static const char* u_names[] = { "page-in-live-segment", "whole-segment", "everything", "several-pages-of-one-segment", "several-pages-one-of-them-reused-repeatedly", "four-huge-segments-possibly-in-four-arenas", "page-of-an-abandoned-segment-freed-by-another-thread", "last-page-of-a-size-class-(retired)" };
 static const char* a_names[] = { "free-other-page", "alloc-page-in-segment", "alloc+free-17MiB", "collect(false)", "small-fast-path-only" };
 #include <pthread.h>
 static uint8_t* g_ab_blk[2];
@@ -343,6 +343,9 @@ static void purge_case(long k) {
       if (_mi_ptr_segment(more[i]) != _mi_ptr_segment(pa)) { vf_sh->infra_error = 1; fprintf(stderr, "set-up: pages not in one segment\n"); return; } }
   }
   if (U == U_ABANDONED) { pthread_t th; g_ab_blk[0] = g_ab_blk[1] = NULL; if (pthread_create(&th, NULL, &ab_thread, NULL) != 0) { vf_sh->infra_error = 1; return; } pthread_join(th, NULL); if (!g_ab_blk[0] || !g_ab_blk[1]) { VIOL("null-result", "set-up"); return; } }
+  uint8_t* rt[4] = { NULL, NULL, NULL, NULL };
+  if (U == U_RETIRED) { for (int i = 0; i < 4; i++) { rt[i] = (uint8_t*)mi_malloc(32 * KiB); if (!rt[i]) { VIOL("null-result", "set-up"); return; } memset(rt[i], 6, 32 * KiB); }
+    if (_mi_ptr_page(rt[0]) != _mi_ptr_page(rt[3]) || _mi_ptr_segment(rt[0]) != _mi_ptr_segment(pa)) { vf_sh->infra_error = 1; fprintf(stderr, "set-up: retired-page geometry\n"); return; } }
   uint8_t* hus[4] = { NULL, NULL, NULL, NULL };
   if (U == U_ARENAS) for (int i = 0; i < 4; i++) { hus[i] = (uint8_t*)mi_malloc(40 * MiB); if (!hus[i]) { VIOL("null-result", "set-up"); return; } memset(hus[i], 7 + i, 40 * MiB); }
   if (U == U_SEGMENT) { hu = (uint8_t*)mi_malloc(17 * MiB); if (!hu) { VIOL("null-result", "set-up"); return; } memset(hu, 4, 17 * MiB); }
@@ -352,6 +355,19 @@ static void purge_case(long k) {
   if (U == U_PAGE)         { lo = (uintptr_t)pb; hi = lo + 1 * MiB; mi_free(pb); pb = NULL; }
   else if (U == U_SEGMENT) { lo = (uintptr_t)hu; hi = lo + 17 * MiB; mi_free(hu); hu = NULL; }
   else if (U == U_ABANDONED) { lo = (uintptr_t)g_ab_blk[1]; hi = lo + 1 * MiB; mi_free(g_ab_blk[1]); }   /* the page's owner is gone: its segment is abandoned, the other block of it stays live */
+  else if (U == U_RETIRED) {
+    /* the only page of its size class becomes empty: mimalloc keeps ("retires") it for a few cycles; every allocation of a fresh page
+       counts one cycle down, after which the page is released (here: six fresh pages of other classes; the cycle count is 4) */
+    size_t psize = 0; lo = (uintptr_t)_mi_segment_page_start(_mi_ptr_segment(rt[0]), _mi_ptr_page(rt[0]), &psize); hi = lo + psize;
+    lo = (lo + 65535) & ~(uintptr_t)65535; hi &= ~(uintptr_t)65535;
+    for (int i = 0; i < 4; i++) mi_free(rt[i]);
+    /* (the fresh pages are small ones: from the fourth on they are carved from the front of the released span -- best fit --
+       so only the back half of the page's range is examined) */
+    static const size_t other[6] = { 1 * KiB, 2 * KiB, 3 * KiB, 4 * KiB, 5 * KiB, 6 * KiB };
+    for (int i = 0; i < 6; i++) { void* t = mi_malloc(other[i]); if (!t) { VIOL("null-result", "activity"); return; } }
+    lo += 256 * KiB;
+    T0 = vf_os.clock_ms;
+  }
   else if (U == U_ARENAS) { for (int i = 0; i < 4; i++) { mlo[i] = (uintptr_t)hus[i]; mhi[i] = mlo[i] + 40 * MiB; mi_free(hus[i]); } nm = 4; lo = mlo[0]; hi = mhi[0]; }
   else if (U == U_MULTI) {
     uint8_t* f[4] = { pb, more[0], more[3], more[6] };     /* pages #1, #3, #6, #9 of the segment */
@@ -364,7 +380,7 @@ static void purge_case(long k) {
   else { lo = (uintptr_t)pa; hi = (uintptr_t)pc + 1 * MiB; mi_free(pa); mi_free(pb); mi_free(pc); pa = pb = pc = NULL; for (int i = 0; i < 8; i++) { mi_free(small[i]); small[i] = NULL; } }
   VF_INC(transitions); VF_INC(checks);
   size_t span = hi - lo;
-  size_t need = span - 192 * KiB;            /* conservative (inner) rounding may leave out up to a slice at each end */
+  size_t need = (U == U_RETIRED ? span : span - 192 * KiB);            /* conservative (inner) rounding may leave out up to a slice at each end (retired page: slice-aligned range) */
   if (d < 0) {
     /* never purged, not even by a forced collect */
     vf_os.clock_ms += 100000; mi_collect(false); mi_collect(true);
@@ -389,6 +405,7 @@ static void purge_case(long k) {
   /* (1) before the delay has passed nothing of the range is purged, whatever ordinary activity happens */
   vf_os.clock_ms = T0 + expiry - 1;
   if (U == U_ALL) { mi_collect(false); }
+  else if (U == U_RETIRED) { void* s2 = mi_malloc(64); mi_free(s2); }   /* (no collect here: a collect releases every empty page, retired or not; this kind is about ordinary activity alone) */
   else { mi_collect(false); void* s2 = mi_malloc(64); mi_free(s2); }
   { size_t got = purged_bytes_in(lo, hi); if (got > 0) { VIOL("purged-too-early", "%zu bytes of the unused range were purged %ld ms after it became unused (delay %ld ms)", got, (long)(vf_os.clock_ms - T0), expiry); return; } }
   /* (2) after the delay has passed, ordinary activity returns it (no forced collect) */
@@ -400,7 +417,7 @@ static void purge_case(long k) {
   switch (A) {
     /* page in a live segment: the segment's purge point is reached when another page of it is freed. (Allocating in
        the segment re-arms the delay by design -- "we assume more allocations are coming soon" -- so it is a control.) */
-    case A_FREE_OTHER_PAGE: if (U == U_PAGE || U == U_MULTI) { pc_addr = pc; mi_free(pc); pc = NULL; expect = 1; } else { void* t = mi_malloc(64); mi_free(t); expect = 0; } break;
+    case A_FREE_OTHER_PAGE: if (U == U_PAGE || U == U_MULTI || U == U_RETIRED) { pc_addr = pc; mi_free(pc); pc = NULL; expect = 1; } else { void* t = mi_malloc(64); mi_free(t); expect = 0; } break;
     case A_ALLOC_PAGE:      { void* t = mi_malloc(300 * KiB); (void)t; expect = 0; break; }
     /* whole segments: the arena's purge point is reached by any arena free and by a non-forced collect */
     case A_HUGE_ALLOC_FREE: { void* t = mi_malloc(40 * MiB); mi_free(t); expect = (U == U_SEGMENT || U == U_ALL); break; }
